@@ -52,6 +52,12 @@ func runC10(c *Ctx) {
 	c10HeaderLenRange(c, m, "C10.record-offsets")
 	// names of any content are stored as given (file.lookup hands newCounter the caller's name)
 	c03LookupTotal(c, m, "C10.record-offsets")
+	// every record that was written can be found again (the walk is not given up early), and the
+	// library's reader reports every record of the file
+	c04LookupGuard(c, m, "C10.record-offsets")
+	c.R.As(map[string]string{"C06.faithful": "C10.record-offsets"}, func() {
+		c06Shape(c, m, m.Func("internal/counter", "Parse"))
+	})
 	c10Offsets(c, m)
 	c10Alignment(c, m)
 	c10ExtendTail(c, m, "C10.page-tail")
@@ -535,6 +541,37 @@ func c10ExtendTail(c *Ctx, m *Module, rule string) {
 			"the only file mutation of extend is writing the 4 reserved zero bytes at the end of the target page, and only when the file is shorter (truncating or writing elsewhere can destroy another writer's records): "+detail)
 	}
 	r.Check(rule, "extend/has the tail write", m.Pos(ext.Pos()), n == 1, fmt.Sprintf("%d file mutations in extend", n))
+	// extend succeeds only with a mapping that really covers the requested end: the caller
+	// retries its reservation against the mapping it gets, and would do so for ever
+	nOK := 0
+	for _, ex := range exitPaths(ext) {
+		v := strip(refine(ex.vals[0], ex.facts))
+		if k, isC := v.(*ssa.Const); isC && k.IsNil() {
+			continue
+		}
+		nOK++
+		covered := hasFact(ex.facts, func(f Fact) bool {
+			bo, ok := f.Cond.(*ssa.BinOp)
+			if !ok {
+				return false
+			}
+			isLen := func(x ssa.Value) bool {
+				d := describe(x)
+				return strings.Contains(d, "builtin:len(") && strings.Contains(d, ".mapping.Data")
+			}
+			isEnd := func(x ssa.Value) bool { return strings.Contains(describe(x), "param:end") }
+			switch {
+			case isLen(bo.X) && isEnd(bo.Y):
+				return bo.Op == token.LSS && !f.Pol || bo.Op == token.GEQ && f.Pol
+			case isEnd(bo.X) && isLen(bo.Y):
+				return bo.Op == token.GTR && !f.Pol || bo.Op == token.LEQ && f.Pol
+			}
+			return false
+		})
+		r.Check(rule, fmt.Sprintf("extend/success #%d only with a mapping that covers the requested end", nOK), m.Pos(ex.ret.Pos()), covered,
+			"a mapping shorter than the end asked for must be an error (errCorrupt): newCounter retries against the mapping it is given")
+	}
+	r.Check(rule, "extend/has a success exit", m.Pos(ext.Pos()), nOK >= 1, fmt.Sprintf("%d", nOK))
 	// openMapped initialises a short file: the opener may write the header it built (at 0)
 	// and the 4 reserved zero bytes at the tail of the first page — nothing in between, because
 	// another process that saw the file first may already have records there
